@@ -8,9 +8,11 @@ import (
 	"sync"
 	"time"
 
+	aftpb "github.com/openconfig/gribi/v1/proto/gribi_aft"
 	"github.com/openconfig/gribigo/compliance"
 	"github.com/openconfig/gribigo/server"
 	"google.golang.org/grpc"
+	"google.golang.org/protobuf/proto"
 
 	"verif/harness/ribx"
 	"verif/mc"
@@ -134,6 +136,24 @@ var faultTable = []struct {
 	{"cross-instance-reference-rejected", "answers FAILED to an entry that references a group of another network instance", func(tt *compliance.TestSpec) bool {
 		return has(tt, "Add IPv4 Entry that references a NHG in a different network instance")
 	}},
+	{"all-primary-election-accepted", "accepts ALL_PRIMARY sessions and election ids sent on them", func(tt *compliance.TestSpec) bool {
+		return has(tt, "Election - Ensure that election ID is not accepted in ALL_PRIMARY mode")
+	}},
+	{"multi-next-hop-group-rejected", "answers FAILED to a group with more than one next-hop", func(tt *compliance.TestSpec) bool {
+		return has(tt, "resolved to a next-hop-group containing multiple next-hops")
+	}},
+	{"identical-next-hop-rejected", "answers FAILED to a next-hop whose contents equal those of an installed one", func(tt *compliance.TestSpec) bool {
+		return has(tt, "Add two NextHops with identical contents")
+	}},
+	{"delete-of-installed-entry-fails", "answers FAILED to the DELETE of an installed, unreferenced entry", func(tt *compliance.TestSpec) bool {
+		return has(tt, "Delete IPv4 entry within default network instance", "Delete NHG entry successfully", "Delete NH entry successfully", "Add-Delete-Add for IPv4Entry", "MPLS delete entry")
+	}},
+	{"ipv4-unsupported", "answers FAILED to every IPv4 ADD", func(tt *compliance.TestSpec) bool {
+		return has(tt, "Add IPv4 entry that can be programmed on the server", "Add-Delete-Add for IPv4Entry")
+	}},
+	{"next-hop-group-unsupported", "answers FAILED to every next-hop-group ADD", func(tt *compliance.TestSpec) bool {
+		return has(tt, "Add next-hop-group entry that can be resolved on the server, no referencing IPv4 entries")
+	}},
 }
 
 func has(tt *compliance.TestSpec, subs ...string) bool {
@@ -157,10 +177,11 @@ func faultNames() []string {
 
 type modWrap struct {
 	spb.GRIBI_ModifyServer
-	f      *faulty
-	params int
-	ops    map[uint64]*spb.AFTOperation
-	known  map[string]bool
+	f          *faulty
+	params     int
+	allPrimary bool
+	ops        map[uint64]*spb.AFTOperation
+	known      map[string]bool
 }
 
 func (f *faulty) Modify(ms spb.GRIBI_ModifyServer) error {
@@ -256,6 +277,16 @@ func (m *modWrap) Recv() (*spb.ModifyRequest, error) {
 					continue
 				}
 			}
+		case "all-primary-election-accepted":
+			if p := in.Params; p != nil && p.Redundancy == spb.SessionParameters_ALL_PRIMARY {
+				m.allPrimary = true
+				m.GRIBI_ModifyServer.Send(&spb.ModifyResponse{SessionParamsResult: &spb.SessionParametersResult{Status: spb.SessionParametersResult_OK}})
+				continue
+			}
+			if m.allPrimary && in.ElectionId != nil {
+				m.GRIBI_ModifyServer.Send(&spb.ModifyResponse{ElectionId: in.ElectionId})
+				continue
+			}
 		case "zero-election-id-accepted":
 			if in.ElectionId != nil && in.ElectionId.High == 0 && in.ElectionId.Low == 0 && in.Params == nil && len(in.Operation) == 0 {
 				m.GRIBI_ModifyServer.Send(&spb.ModifyResponse{ElectionId: &spb.Uint128{Low: f.maxElec}})
@@ -334,6 +365,43 @@ func (m *modWrap) Recv() (*spb.ModifyRequest, error) {
 				}
 			case "cross-instance-reference-rejected":
 				if ni := op.GetIpv4().GetIpv4Entry().GetNextHopGroupNetworkInstance().GetValue(); ni != "" && ni != op.GetNetworkInstance() {
+					m.direct(op.GetId(), spb.AFTResult_FAILED)
+					continue
+				}
+			case "multi-next-hop-group-rejected":
+				if op.GetOp() != spb.AFTOperation_DELETE && len(op.GetNextHopGroup().GetNextHopGroup().GetNextHop()) > 1 {
+					m.direct(op.GetId(), spb.AFTResult_FAILED)
+					continue
+				}
+			case "identical-next-hop-rejected":
+				if nh := op.GetNextHop(); nh != nil && op.GetOp() == spb.AFTOperation_ADD {
+					dup := false
+					if cur, err := ribx.Snapshot(f.inner.VerifRIB()); err == nil {
+						for _, e := range cur.E {
+							if o, ok := e.Payload.(*aftpb.Afts_NextHopKey); ok && e.NI == op.GetNetworkInstance() && o.GetIndex() != nh.GetIndex() && proto.Equal(o.GetNextHop(), nh.GetNextHop()) {
+								dup = true
+							}
+						}
+					}
+					if dup {
+						m.direct(op.GetId(), spb.AFTResult_FAILED)
+						continue
+					}
+				}
+			case "delete-of-installed-entry-fails":
+				if k, key, _ := ribx.Describe(op); op.GetOp() == spb.AFTOperation_DELETE {
+					if cur, err := ribx.Snapshot(f.inner.VerifRIB()); err == nil && cur.Has(op.GetNetworkInstance(), k, key) && cur.Referrers(op.GetNetworkInstance(), k, key) == 0 {
+						m.direct(op.GetId(), spb.AFTResult_FAILED)
+						continue
+					}
+				}
+			case "ipv4-unsupported":
+				if op.GetIpv4() != nil && op.GetOp() == spb.AFTOperation_ADD {
+					m.direct(op.GetId(), spb.AFTResult_FAILED)
+					continue
+				}
+			case "next-hop-group-unsupported":
+				if op.GetNextHopGroup() != nil && op.GetOp() == spb.AFTOperation_ADD {
 					m.direct(op.GetId(), spb.AFTResult_FAILED)
 					continue
 				}
